@@ -392,6 +392,14 @@ func (c *contentValidator) ValidateRequestAccept(ch *aclrecordproto.AclAccountRe
 	if !acceptIdentity.Equals(record.RequestIdentity) {
 		return ErrIncorrectIdentity
 	}
+	if record.Type != RequestTypeJoin {
+		// only join requests can be accepted, a removal request is served by AccountRemove
+		return ErrNoSuchRequest
+	}
+	if !c.aclState.Permissions(acceptIdentity).NoPermissions() {
+		// the requester became a member by other means, accepting the stale request would re-permission it
+		return ErrDuplicateAccounts
+	}
 	if ch.Permissions == aclrecordproto.AclUserPermissions_Owner {
 		return ErrInsufficientPermissions
 	}
